@@ -14,7 +14,16 @@
     'idle' / 'after-ehlo'            consulted after an end-of-data reply / the EHLO-LHLO reply was sent:
                                      ('raw-stall', b'..') = once the peer has consumed that reply, send these bytes
                                      unasked as a segment of their own (e.g. half a 421 line), then silence
+    'body'                           consulted after a positive reply to DATA, before the message is read:
+                                     ('noread',) = never read a byte of the message (nor anything else) again --
+                                     the sender blocks in send() once the kernel buffers are full;
+                                     ('delay', s, ('ok',)) = start reading after s seconds; default ('ok',)
+                                     With push_on_probe=True the bytes are withheld until the harness calls
+                                     push_now() (it does so when the peer starts probing for unsolicited data).
   tls_immediately=True               the connection starts with a TLS handshake (SMTPS-style next hop)
+  small_buffers=N                    SO_SNDBUF of the relay's end of the socketpair is set to N bytes, so that a
+                                     message of a few hundred KB does not fit into the kernel buffers
+  lenient_data=True                  DATA is answered by the script even when no recipient was accepted
 
 deaf=True: a stalled connection does not read from its socket either (the default stall keeps reading and
 so lets the TLS layer answer the peer's close_notify).
@@ -51,8 +60,11 @@ class _StallingContext(object):
 
 class Downstream14(Downstream):
 
-    def __init__(self, script=None, tls_immediately=False, tls_context=None, deaf=False, **kw):
+    def __init__(self, script=None, tls_immediately=False, tls_context=None, deaf=False, small_buffers=None,
+                 lenient_data=False, **kw):
         self.deaf = deaf
+        self.small_buffers = small_buffers
+        self.lenient_data = lenient_data
         self._real_tls = tls_context
         if tls_context is not None:
             tls_context = _StallingContext(self, tls_context)
@@ -63,6 +75,15 @@ class Downstream14(Downstream):
         self.pushed_after_drain = None
         self.trickled = 0
         self._forced = None
+        self.push_on_probe = False
+        self._pending_push = {}
+
+    def creator(self, address=None):
+        ours = Downstream.creator(self, address)
+        if self.small_buffers:
+            import socket as _s
+            ours.setsockopt(_s.SOL_SOCKET, _s.SO_SNDBUF, self.small_buffers)
+        return ours
 
     # --- action plumbing: resolve delays once, then hand the resolved action to the base class
     def action(self, ctx, stage):
@@ -128,18 +149,47 @@ class Downstream14(Downstream):
             return inner
         self._forced = a
         r = Downstream._send(self, f, c, ctx, stage, ok)
+        if stage == 'data' and self.positive(r, '3'):
+            # what the next hop does with the message the peer now starts to send
+            a3 = self._resolve(ctx, 'body')
+            if a3[0] == 'noread':
+                self._begin_stall('body', 'noread')
+                from gevent.event import Event
+                Event().wait()
         extra = 'idle' if stage.startswith('eod') else 'after-ehlo' if stage == 'ehlo' else None
         if extra:
             # what the next hop does, unasked, after answering the end of data / the EHLO or LHLO
             a2 = Downstream.action(self, ctx, extra)
             if a2[0] == 'raw-stall':
-                # as a segment of its own: only once the peer has consumed the reply just sent
-                self.pushed_after_drain = self._wait_drained(ctx['conn'])
-                f.write(a2[1])
-                f.flush()
+                if self.push_on_probe and not self.conns[ctx['conn']].tls:
+                    # the harness puts the bytes on the wire itself (push_now) at the instant the peer starts to
+                    # look for unsolicited data -- by then it has consumed the reply just sent
+                    from gevent.event import Event
+                    ev = Event()
+                    self._pending_push[ctx['conn']] = (a2[1], ev)
+                    ev.wait()
+                    self.pushed_after_drain = True
+                else:
+                    # as a segment of its own: only once the peer has consumed the reply just sent
+                    self.pushed_after_drain = self._wait_drained(ctx['conn'])
+                    f.write(a2[1])
+                    f.flush()
                 self._begin_stall(extra, 'raw-stall')
                 self._silent(f)
         return r
+
+    def push_now(self):
+        """Called by the harness from the peer's greenlet: write every withheld unsolicited fragment now."""
+        pushed = False
+        for conn, (data, ev) in list(self._pending_push.items()):
+            del self._pending_push[conn]
+            try:
+                self._socks[conn].sendall(data)
+                pushed = True
+            except (OSError, IOError):
+                pass
+            ev.set()
+        return pushed
 
     def _wait_drained(self, conn, limit=0.2):
         """Poll (0.5 ms) until the peer has read everything we sent (SIOCOUTQ == 0 on our end of the socketpair);
